@@ -193,6 +193,11 @@ func evalHistory(h *History, label string) (observed bool) {
 		rep.Violate(hx.Violation{Kind: "correspondence", Signature: "C09:shadowed-but-dangling",
 			What: "model: all raw edges shadowed, yet a call uses a collected object (contradicts no_dangling_use_partial)", Input: h})
 	}
+	if last.Shadow {
+		rep.Count("history:shadowOk(theorem-proviso-met)")
+	} else {
+		rep.Count("history:not-shadowOk")
+	}
 	if allDisc {
 		rep.Count("history:disciplined")
 	} else {
@@ -415,7 +420,9 @@ func (g *gen) history(engine string) *History {
 		tab             string
 		imp             int
 		closed, dropped bool
+		owner           int // instance that defines the table this instance uses
 	}
+	filled := map[[2]int]bool{} // (table owner, slot) that received a reference
 	var insts []*ist
 	order := r.Perm(n)
 	idxOf := map[int]int{}
@@ -436,7 +443,11 @@ func (g *gen) history(engine string) *History {
 				s.tab = "exp"
 			}
 		default:
-			s.tab = fmt.Sprintf("imp:%d", g.pick(exps))
+			s.owner = g.pick(exps)
+			s.tab = fmt.Sprintf("imp:%d", s.owner)
+		}
+		if !strings.HasPrefix(s.tab, "imp") {
+			s.owner = i
 		}
 		add(fmt.Sprintf("inst %d %s %s", i, imp, s.tab))
 		if s.tab == "exp" {
@@ -456,6 +467,7 @@ func (g *gen) history(engine string) *History {
 		return hs
 	}
 	rtClosed := false
+	discMode := r.Intn(2) == 0
 	for round := 0; round < 1+r.Intn(2); round++ {
 		// passes
 		for k := 0; k < 2+r.Intn(5); k++ {
@@ -469,7 +481,34 @@ func (g *gen) history(engine string) *History {
 			}
 			how := []string{"own", "own", "own", "imp", fmt.Sprintf("slot:%d", r.Intn(tabSize)), "glob"}[r.Intn(6)]
 			wh := []string{fmt.Sprintf("tab:%d", r.Intn(tabSize)), fmt.Sprintf("tab:%d", r.Intn(tabSize)), "glob"}[r.Intn(3)]
+			if discMode {
+				// mirror of the Lean predicate `disciplined`: retry until the pass satisfies it
+				for try := 0; try < 20; try++ {
+					is, id := insts[idxOf[s]], insts[idxOf[d]]
+					toTab := strings.HasPrefix(wh, "tab")
+					shared := toTab && id.tab != "priv" && is.tab != "priv" && is.owner == id.owner
+					ok := false
+					switch {
+					case how == "own" || how == "imp":
+						ok = s == d || shared
+					case strings.HasPrefix(how, "slot"):
+						ok = s == d || (toTab && is.owner == id.owner)
+					default:
+						ok = s == d
+					}
+					if ok {
+						break
+					}
+					s, d = g.pick(hs), g.pick(hs)
+					if try%2 == 1 {
+						d = s
+					}
+				}
+			}
 			add(fmt.Sprintf("pass %d %s %d %s", s, how, d, wh))
+			if w, n := colon(wh); w == "tab" {
+				filled[[2]int{insts[idxOf[d]].owner, n}] = true
+			}
 			if r.Intn(3) == 0 {
 				add(fmt.Sprintf("call %d tab:%d %d", d, r.Intn(tabSize), r.Intn(50)))
 			}
@@ -513,7 +552,7 @@ func (g *gen) history(engine string) *History {
 		// calls through everything the host can still reach
 		for _, j := range held() {
 			for s := 0; s < tabSize; s++ {
-				if r.Intn(3) > 0 {
+				if filled[[2]int{insts[idxOf[j]].owner, s}] && r.Intn(5) > 0 || r.Intn(6) == 0 {
 					add(fmt.Sprintf("call %d tab:%d %d", j, s, r.Intn(50)))
 				}
 			}
@@ -524,7 +563,9 @@ func (g *gen) history(engine string) *History {
 				add(fmt.Sprintf("call %d host %d", j, r.Intn(50)))
 			}
 			if r.Intn(4) == 0 {
-				add(fmt.Sprintf("pass %d glob %d tab:%d", j, j, r.Intn(tabSize)))
+				n := r.Intn(tabSize)
+				add(fmt.Sprintf("pass %d glob %d tab:%d", j, j, n))
+				filled[[2]int{insts[idxOf[j]].owner, n}] = true
 			}
 		}
 		_ = rtClosed
